@@ -199,7 +199,7 @@ def state_case_st():
     # long runs: hundreds of steps with sparse order flow (series of the dictionaries grow long; step indices pass 255)
     sparse = st.one_of(st.just(("step",)), st.just(("step",)), st.just(("step",)), st.just(("step",)), bid, ask, st.tuples(st.just("cancel"), st.integers(0, 65535)))
     long_run = st.tuples(prefix, st.lists(sparse, min_size=150, max_size=420)).map(lambda t: t[0] + t[1] + [("step",)])
-    ops = st.one_of(short, short, short, short, short, short, short, long_run)
+    ops = st.integers(0, 9).flatmap(lambda k: long_run if k == 0 else short)
     return st.fixed_dictionaries({"tick": st.integers(1, 10), "seed": st.integers(0, 2**32), "step_size": st.sampled_from([100, 1000, 10**6]), "numpy_api": st.booleans(), "ops": ops})
 
 
